@@ -20,7 +20,7 @@ NAMES = {1: "byte", 2: "halfword", 4: "word", 8: "doubleword"}
 
 
 def bounds(tier):
-    return {"operations_per_case": 1, "address_range": "[-2^33, 2^33]", "configs": ["riscv: byte cells, 32-bit, overflow, range [2^14,2^32)", "toy: 16-bit cells, 12-bit addresses, no overflow"]}
+    return {"operations_per_case": 1, "address_range": "[-2^33, 2^33]", "configs": ["riscv: byte cells, 32-bit, overflow, range [2^14,2^32)", "toy: 16-bit cells, 12-bit addresses, no overflow", "anyrange: byte cells, 32-bit, overflow, range [lo,2^32) with lo symbolic in [0,2^20] (lo = 0 is the class default)"]}
 
 
 def mk_memory(e, config):
@@ -36,6 +36,16 @@ def mk_memory(e, config):
         if e.mode == "sym":
             m.address_range = SymRange(2**14, 2**32)
         return m, st, 8, 2**14, 2**32, True
+    if config == "anyrange":
+        # byte store with wrap-around whose first valid address is symbolic (0 = the class default,
+        # the memory the pipeline tests install; 2^14 = the simulator's data memory)
+        lo = e.int("range_lo", 0, 2**20)
+        m = Memory(AddressingType.BYTE, 32, True, range(lo, 2**32) if e.mode != "sym" else None)
+        st = Store(e, "M0", 32, 8, presence=True)
+        m.memory_file = SymMem(e, st, f.UInt8, total=False)
+        if e.mode == "sym":
+            m.address_range = SymRange(lo, 2**32)
+        return m, st, 8, lo, 2**32, True
     m = Memory(AddressingType.HALF_WORD, 12, address_range=range(4096))
     st = Store(e, "T0", 12, 16, presence=True)
     m.memory_file = SymMem(e, st, f.UInt16, total=False)
@@ -68,7 +78,7 @@ def h_access(e, config, op, nbytes):
             fn(a, arg)
     except (MemoryAddressError, UnsupportedFunctionError) as ex:
         exc = ex
-    q = e.int("q", 0, (2**32 - 1) if config == "riscv" else 4095)
+    q = e.int("q", 0, (2**32 - 1) if config != "toy" else 4095)
     e.observe("exc", type(exc).__name__ if exc is not None else None)
     e.observe("got", got)
     e.observe("M'[q]", st.abstract(q))
@@ -121,7 +131,7 @@ def h_write_read(e, config, n1, n2):
     f = fx()
     m, st, cellbits, lo, hi, wrap = mk_memory(e, config)
     pre = st.fork()
-    a = e.int("a", lo, hi - 1)
+    a = e.int("a", lo if type(lo) is int else 0, hi - 1)
     d = e.int("d", -8, 8)
     b = a + d
     v = e.int("v", 0, 2 ** (8 * n1) - 1)
@@ -148,12 +158,16 @@ HARNESSES = {"access": h_access, "write_read": h_write_read}
 
 def jobs(tier, seed):
     out = []
-    for config in ("riscv", "toy"):
+    for config in ("riscv", "toy", "anyrange"):
         for op in ("read", "write"):
             for n in (1, 2, 4, 8):
+                if config == "anyrange" and n == 8 and op == "read":
+                    continue  # 8-cell reads fork 2^8 ways on key presence; covered in the riscv configuration
                 out.append({"label": "%s-%s-%s" % (config, op, NAMES[n]), "harness": "access", "args": {"config": config, "op": op, "nbytes": n}, "cost": n})
     for n1, n2 in ((1, 4), (4, 1), (2, 4), (4, 2), (4, 4), (2, 2)):
         out.append({"label": "riscv-wr-%d-%d" % (n1, n2), "harness": "write_read", "args": {"config": "riscv", "n1": n1, "n2": n2}, "cost": 4})
+    for n1, n2 in ((4, 4), (2, 4), (4, 1)):
+        out.append({"label": "anyrange-wr-%d-%d" % (n1, n2), "harness": "write_read", "args": {"config": "anyrange", "n1": n1, "n2": n2}, "cost": 4})
     out.append({"label": "toy-wr-2-2", "harness": "write_read", "args": {"config": "toy", "n1": 2, "n2": 2}, "cost": 2})
     out.append({"label": "toy-wr-2-4", "harness": "write_read", "args": {"config": "toy", "n1": 2, "n2": 4}, "cost": 2})
     return out
